@@ -52,7 +52,7 @@ func TestC10Token(t *testing.T) {
 		"the rest short and odd: blanks, 'Bearer' inside, non-ASCII, 1..64 runes) x Authorization spelling from a near-miss table "+
 		"(absent, exact, wrong, scheme case, double space, tab, trailing junk, token as prefix/suffix of the presented one, truncated, case-flipped, empty token, no scheme, other scheme, comma-joined, "+
 		"two field lines in both orders; related to the configured token: only its first 32/64/100/128 bytes, the header value cut at 32/64/128/256 bytes, last byte changed, tail replaced after byte 57/64/100, "+
-		"trailing garbage, another token sharing exactly the first 57/64/100/128/n-8/n-1 bytes, same JWT claims with another signature) x request (every endpoint with its documented method and a VALID mutating body, every endpoint with 11 odd methods, 16 near-miss paths); "+
+		"trailing garbage, another token sharing exactly the first 57/64/100/128/n-8/n-1 bytes, same JWT claims with another signature) x 0..4 further client-supplied field lines (Accept / Content-Type / User-Agent spellings, the token itself in Cookie / X-Api-Key / X-Auth-Token / Proxy-Authorization, override and forwarding headers: the credential counts in Authorization only) x request (every endpoint with its documented method and a VALID mutating body, every endpoint with 11 odd methods, 16 near-miss paths); "+
 		"fresh real balancer + adminapi.NewMux per request, no IP lists; oracle: unless some Authorization line equals 'Bearer <token>' exactly: 401 on every endpoint path except /v1/health "+
 		"(any non-2xx on non-endpoint paths), backend multiset unchanged, strategy still round_robin by behaviour, body+headers contain no backend name/address/metrics key; a single exact line => not 401; "+
 		"two lines with one exact: unconstrained; non-trivial = the presented value is a near miss of the exact one on a non-health path")
@@ -66,6 +66,7 @@ func TestC10Token(t *testing.T) {
 		r.Remote = "10.0.0.1:4000"
 		var class string
 		r.Auth, class = genAuth(rt, token)
+		r.Extra = genClientHeaders(rt, token)
 		for _, l := range r.Auth {
 			if !headerValueOK(l) {
 				rt.Fatalf("harness: generated Authorization value %q cannot pass the HTTP parser", l)
@@ -90,6 +91,7 @@ func TestC10Token(t *testing.T) {
 				labels = append(labels, "long-token-related-near-miss")
 			}
 		}
+		labels = append(labels, clientHeaderLabels(r)...)
 		nt := obliged && (strings.HasPrefix(class, "near-") || class == "two-lines-none-exact")
 		sub.Case(map[string]any{"token": token, "req": r}, nt, labels...)
 		if self != "" {
